@@ -7,6 +7,7 @@ python3 tools/gen_guards.py > /dev/null
 python3 tools/gen_skel.py > /dev/null
 python3 tools/gen_emit.py > /dev/null
 python3 tools/gen_loops.py > /dev/null
+python3 tools/gen_optimize.py > /dev/null
 python3 tools/gen_loader_guards.py > /dev/null
 python3 tools/gen_handler_guards.py > /dev/null
 python3 tools/gen_param_guards.py > /dev/null
